@@ -1,7 +1,7 @@
 """Per-property exploration: which harness runs, what is compared, which oracle clauses count."""
 import os, sys, json, random, glob, collections, multiprocessing, time
 VERIF = os.path.dirname(os.path.dirname(os.path.abspath(__file__)))
-from harness import common, l1, store_oracle, tbuffer, storeq
+from harness import common, l1, store_oracle, tbuffer, storeq, factory, factory_oracle
 
 # fields of a row whose disagreement (model vs implementation) concerns each store-level property
 L1_FIELDS = {
@@ -210,6 +210,114 @@ def run_c11(pid, tier, seed):
     return res
 
 
+# ------------------------------------------------------------------ factory-level properties (L2)
+# which kinds of canonical output lines concern which property (first differing line of a disagreement)
+F_LINES = {
+    "C03": {"G", "P", "T", "D", "R", "NODE", "EDGE"},
+    "C08": {"P", "T", "W"},
+    "C09": {"P", "D", "G", "T"},
+    "C10": {"P", "T", "R"},
+    "C14": {"P", "T"},
+    "C15": {"S", "W", "P", "T"},
+    "C17": {"NODE"},
+    "C18": {"NODE", "EDGE", "R"},
+    "C19": {"G", "P", "T", "D", "R", "S", "W", "NODE", "EDGE", "CRASH", "EXHAUSTED"},
+    "C20": {"CRASH", "EXHAUSTED"},
+}
+
+
+def _f_worker(args):
+    pid, n, seed, corpus = args
+    rng = random.Random(seed)
+    cfgs = list(corpus) + [factory.gen_config(rng, with_fleet=True) for _ in range(n)]
+    out = dict(evals=0, tags=collections.Counter(), sigs=set(), dis=[], viol=[], samples=[], lines=0)
+    for lo in range(0, len(cfgs), 100):
+        for r in factory.run_batch(cfgs[lo:lo + 100]):
+            c = r["case"]
+            out["evals"] += 1
+            out["lines"] += len(r["impl"])
+            tg = factory_oracle.tags(c, r["impl"])
+            out["tags"].update(tg)
+            out["sigs"].add((len(c["nodes"]), len(c["edges"]), tuple(sorted(tg)), tuple(n_["kind"] for n_ in c["nodes"]),
+                             tuple((n_["blocking"], n_["outsel"][0], n_["wcap"]) for n_ in c["nodes"])))
+            if r["dis"]:
+                k, a, b = r["dis"]
+                kinds = {str(x).split()[0] for x in (a, b) if x}
+                if kinds & F_LINES[pid]:
+                    out["dis"].append(dict(case=c, line_index=k, impl=a, model=b))
+            for prop, msg in factory_oracle.check(c, r["impl"]):
+                if prop == pid:
+                    out["viol"].append(dict(**{"class": "factory"}, message=msg, case=c))
+                    break
+            if not out["samples"] and len(tg) >= 4:
+                out["samples"].append(dict(config=dict(T=c["T"], nodes=c["nodes"], edges=c["edges"], order=c["order"]),
+                                           first_lines=r["impl"][:12]))
+    out["sigs"] = len(out["sigs"])
+    out["dis"], out["viol"] = out["dis"][:3], out["viol"][:3]
+    return out
+
+
+def run_factory(pid, tier, seed):
+    n = 320 if tier == "quick" else 24000
+    shards = 8 if tier == "quick" else 16
+    corpus = load_corpus("factory", None)
+    jobs = [(pid, n // shards, seed * 131 + k, corpus if k == 0 else []) for k in range(shards)]
+    with multiprocessing.Pool(min(16, shards)) as pool:
+        outs = pool.map(_f_worker, jobs)
+    res = dict(evaluations=0, distinct_nontrivial=0, samples=[], traces=0, disagreements=[], violations=[], known=[])
+    tags, lines = collections.Counter(), 0
+    for o in outs:
+        res["evaluations"] += o["evals"]; res["traces"] += o["evals"]; res["distinct_nontrivial"] += o["sigs"]
+        res["disagreements"] += o["dis"]; res["violations"] += o["viol"]; res["samples"] += o["samples"]
+        tags.update(o["tags"]); lines += o["lines"]
+    res["rule"] = ("random factories: 1-2 sources, 0-2 layers of 1-2 machines, 1-2 sinks, fan-in/fan-out, Buffer (FIFO/LIFO, delay "
+                   "stream constant/callable/generator) and Fleet edges, every blocking flag, work_capacity 1-3, policies "
+                   "FIRST_AVAILABLE / ROUND_ROBIN / constant / callable / generator on both sides, shuffled construction and connect "
+                   "order, integer delays incl. 0, horizon 10-40; built from the real classes, run under the real kernel, and "
+                   "compared line by line (timed item movements, draws, recorded selections, final statistics) with the extracted "
+                   "Gallina factory model; distinct = distinct (shape, node kinds, per-node (blocking, policy, work_capacity), "
+                   "situations reached); every factory moves items, so all are non-trivial")
+    res["distribution"] = dict(factories_reaching=dict(tags), canonical_lines_compared=lines)
+    res["domain"] = "node types Source, Machine, Sink; edge types Buffer, Fleet (Splitter, Combiner and conveyors are not in the generator yet)"
+    return res
+
+
+def run_c19(pid, tier, seed):
+    """factory correspondence + reproducibility: same configuration twice in one interpreter and in
+    separate interpreters under different hash seeds / allocation histories"""
+    import subprocess, tempfile, hashlib
+    res = run_factory(pid, tier, seed)
+    rng = random.Random(seed + 7)
+    n = 24 if tier == "quick" else 400
+    cfgs = [factory.gen_config(rng, with_fleet=True) for _ in range(n)]
+    from harness import repro
+    a, b = repro.digests(cfgs), repro.digests(cfgs, churn=1000)
+    runs = {"in-process-1": a, "in-process-2": b}
+    with tempfile.NamedTemporaryFile("w", suffix=".json", delete=False) as f:
+        json.dump(cfgs, f)
+        path = f.name
+    try:
+        for hs in (["0", "1", "12345"] if tier == "quick" else ["0", "1", "2", "77", "12345", "999983"]):
+            env = dict(os.environ, PYTHONHASHSEED=hs)
+            p = subprocess.run(["/venv/bin/python", os.path.join(VERIF, "harness", "repro.py"), path, str(int(hs) % 5000)],
+                               stdout=subprocess.PIPE, stderr=subprocess.DEVNULL, text=True, env=env, timeout=1800)
+            runs["PYTHONHASHSEED=" + hs] = json.loads(p.stdout.strip().split("\n")[-1]) if p.returncode == 0 else None
+    finally:
+        os.unlink(path)
+    for name, d in runs.items():
+        if d is None:
+            res["violations"].append(dict(**{"class": "repro"}, message="reproducibility run %s crashed" % name, case=None))
+            continue
+        for i, (x, y) in enumerate(zip(a, d)):
+            if x != y:
+                res["violations"].append(dict(**{"class": "repro"}, message="run %s differs from the first in-process run" % name, case=cfgs[i]))
+                break
+    res["evaluations"] += n * len(runs)
+    res["distribution"]["reproducibility_runs"] = {k: (len(v) if v else None) for k, v in runs.items()}
+    res["rule"] += "; plus %d configurations run twice in one interpreter and once in each of %d fresh interpreters with different PYTHONHASHSEED and allocation history, full canonical output compared by digest" % (n, len(runs) - 2)
+    return res
+
+
 def replay(pid, path):
     obj = json.load(open(path))
     case = obj.get("case")
@@ -227,6 +335,10 @@ def replay(pid, path):
 L1_TRUST = ["modelled, not verified: the Python store classes themselves; SimPy's Event/succeed; CPython list semantics",
             "side condition of the bound-store theorems: callers put pairwise distinct objects (NoDup put_ids)"]
 
+L2_TRUST = ["modelled, not verified: the node / edge classes and the SimPy kernel are re-expressed as the Gallina factory model "
+            "(coq/theories/Kernel, coq/theories/Factory) and tied by trace-exact differential correspondence",
+            "integer delays in the harness (exact in floating point); user callables / generators are cyclic streams"]
+
 SPECS = {
     "C01": dict(run=run_l1, trusted=L1_TRUST),
     "C02": dict(run=run_l1, trusted=L1_TRUST),
@@ -234,6 +346,7 @@ SPECS = {
     "C05": dict(run=run_c05, trusted=L1_TRUST),
     "C06": dict(run=run_l1, trusted=L1_TRUST),
     "C07": dict(run=run_l1, trusted=L1_TRUST),
+    "C19": dict(run=run_c19, trusted=L2_TRUST + ["hash / identity dependence is a property of the CPython run, not of the model: it is tested (several hash seeds, allocation histories), not proved"]),
     "C11": dict(run=run_c11, trusted=["modelled, not verified: Buffer / BufferStore classes, SimPy kernel (its contract 'an event scheduled "
                                       "for t is processed at now = t, the clock never passes a pending event' is the legality condition "
                                       "of TFire / TIdle in the timed model and is checked against the real kernel by the correspondence)",
